@@ -299,4 +299,22 @@ func rulesC20(e *Engine, r *Report) {
 	e.checkNoReentrantLocking(r, "R20.8", 15, "stage")
 	// ---------------------------------------------------------------- R20.9
 	e.shareRule(r, "C06", "R06.9", "R20.9", "the cleaner decides with the companion's hash: whatever produces the companion record it reads - the current format, or the upgrade of a legacy-format companion - carries the hash over (an empty hash makes the log look-up match ANY record of the name, and the partial and companion of a version still being received are deleted)")
+	// ---------------------------------------------------------------- R20.10
+	r.Rule("R20.10", "an unreadable record is an error, not an empty record: readLocalCompanion decodes what it has read with json.Unmarshal and returns its error; it does not go through fileutil.LoadJSON, which takes an empty file for a successful load - the cleaner skips a partial only because reading its companion fails (`nothing can be decided without the record`), and an all-empty record matches any logged version of the name")
+	{
+		bad := 0
+		for _, fn := range e.FuncsIn("stage") {
+			for _, s := range e.SitesIn(fn) {
+				if e.CalleeKey(s.Instr.Common()) == "fileutil.LoadJSON" {
+					bad++
+					r.Bad("R20.10", e.ShortName(fn)+": fileutil.LoadJSON in package stage", e.InstrPos(s.Instr), "a companion (or any stage record) is loaded with a decoder that reports an empty file as success", 1)
+				}
+			}
+		}
+		if fn := needFn(e, r, "R20.10", "stage.readLocalCompanion"); fn != nil {
+			un := e.findInstrs(fn, "call(json.Unmarshal)(§)", false)
+			r.Check(len(un) >= 1 && bad == 0, "R20.10", "stage.readLocalCompanion: decoded with json.Unmarshal, whose error is returned", e.Pos(fn.Pos()),
+				"the companion is no longer decoded with json.Unmarshal", 1)
+		}
+	}
 }
